@@ -34,10 +34,16 @@ def run(ctx):
                       "parse_line turns `\\X` into X inside a double-quoted word (computed by exploring its character "
                       "loop) is a character wrap_sep_string(`\"`, text) puts a backslash in front of; otherwise the script "
                       "path, which tokenizes, re-renders and tokenizes again, unescapes twice")
+    ctx.rule("R16-4", "the tokenizer of the script path reads the same characters as the splitter of the -c path: parse_line "
+                      "(the only tokenizer that sees `||` / `&&` / `;`, and only on the script path) never uses its character "
+                      "counter as a byte offset (E-ISPACE)")
     for crate in ctx.crates:
         funnel_rule(ctx, crate)
         renderer_rule(ctx, crate)
         dq_roundtrip_rule(ctx, crate)
+        from .. import ispace
+        ispace.rule(ctx, crate, "R16-4", ["parsers::parser_line::parse_line", "parsers::parser_line::tokens_to_line",
+                                           "scripting::expand_args"])
 
 
 def funnel_rule(ctx, crate):
